@@ -7,6 +7,7 @@ CONSTANTS
   MaxP = 2
   MaxTok = 2
   MaxClock = 8
+  Cancel = "none"
   Atomic = TRUE
 INVARIANTS SemSafe NoWedge RateBound
 CHECK_DEADLOCK FALSE
